@@ -3,7 +3,7 @@ future_queue_grouped stream: same slots at every start, poll by poll; own seeded
 environment rendering of the model against the documented format + an independent oracle that
 replays the implementation's own log and checks uniqueness, least-free and the bounds directly."""
 import json, os
-import vlib
+import vlib, gen_tie
 from vlib import coq_str
 from props import fq_common as fq
 
@@ -65,6 +65,9 @@ def run(tier, seed):
     chk = vlib.Check(PROP, tier, seed)
     gate = vlib.coq_gate(PROP)
     vlib.gate_or_violation(chk, gate)
+    # glue code (DESIGN 11.7, third round): only selected tests reach the scheduler (and so get a slot): the filter_map
+    # stage of TestRunnerInner::execute, read from the source
+    gen_tie.gate(chk, ['execute_filter_stage'], gate, family="glue")
     binary, err = vlib.build_harness()
     if binary is None:
         chk.violation("broken-obligation", "harness-build", dict(error=err), no_input=True)
